@@ -39,6 +39,13 @@ GRAPHS = {
     "use-after-a-declaration": ([("main.oal", [], 'let t0 = {};\nuse "a.oal";\nres / on get -> <ta & t0>;'), ("a.oal", [], 'let ta = tb;\nuse "b.oal";'), ("b.oal", [], "let tb = {};")], "ok"),
     "cycle-closed-by-a-late-use": ([("main.oal", ["a.oal"], "res / on get -> <{}>;"), ("a.oal", [], 'let ta = {};\nuse "main.oal";')], "cycle"),
     "missing-late-import": ([("main.oal", [], 'res / on get -> <{}>;\nuse "nope.oal";')], "missing:nope.oal"),
+    # the same spelling means different files in different directories: each is looked for where its importer lives
+    "same-spelling-present-here-missing-there": ([("main.oal", ["util.oal", "lib/a.oal"], "res / on get -> <tu & ta>;"), ("util.oal", [], "let tu = {};"),
+                                                  ("lib/a.oal", ["util.oal"], "let ta = {};")], "missing:lib/util.oal"),
+    "same-spelling-missing-there-asked-first": ([("main.oal", ["lib/a.oal", "util.oal"], "res / on get -> <tu & ta>;"), ("util.oal", [], "let tu = {};"),
+                                                 ("lib/a.oal", ["util.oal"], "let ta = {};")], "missing:lib/util.oal"),
+    "same-spelling-missing-here-present-there": ([("main.oal", ["lib/a.oal"], "res / on get -> <ta>;"), ("lib/a.oal", ["util.oal", "../b.oal"], "let ta = tu;"), ("lib/util.oal", [], "let tu = {};"),
+                                                  ("b.oal", ["util.oal"], "let tb = {};")], "missing:util.oal"),
     "missing-import": ([("main.oal", ["a.oal"], "res / on get -> <{}>;"), ("a.oal", ["nope.oal"], "let ta = {};")], "missing:nope.oal"),
 }
 
@@ -196,6 +203,9 @@ def run_graphs(tag="graphs"):
             continue
         if len(set(loads)) != len(loads) or len(set(parses)) != len(parses):
             mism.append("%s: a module was loaded/parsed more than once: %s" % (name, loads))
+        ghosts = [x for x in loads if os.path.normpath(x) not in {fn for fn, _, _ in files}]
+        if ghosts:
+            mism.append("%s: the loader is asked for the text of %s, a module that was never reported to exist" % (name, ghosts))
         if len(set(comps)) != len(comps):
             mism.append("%s: a module was compiled more than once: %s" % (name, comps))
         if expect == "ok":
